@@ -141,7 +141,9 @@ var c07Derive = probe.Define("C07", "derive", func(t *rapid.T) c07In {
 		// keying the same object again (a retried exchange with fresh nonces): if keys are produced they must be the right ones
 		// (an implementation may refuse to re-key an object; silently wrong keys are never acceptable)
 		nonce2 := append([]byte{0x42}, in.Nonce...)
-		if err := probe.Try(func() error { return sa.GenerateKeyForIKESA(append([]byte(nil), nonce2...), append([]byte(nil), in.Secret...), in.SPIr, in.SPIi) }); err == nil {
+		if err := probe.Try(func() error {
+			return sa.GenerateKeyForIKESA(append([]byte(nil), nonce2...), append([]byte(nil), in.Secret...), in.SPIr, in.SPIi)
+		}); err == nil {
 			want2 := ref.DeriveIKE(ref.Prfs[s.Prf], ref.Integs[s.Integ], ref.Encrs[s.Encr], nonce2, in.Secret, in.SPIr, in.SPIi)
 			if err := checkSAKeys(sa, s, want2); err != nil {
 				return probe.Fail("suite %s/%s/%s, second derivation on the same object: %v", ref.Encrs[s.Encr].Name, ref.Integs[s.Integ].Name, ref.Prfs[s.Prf].Name, err)
